@@ -156,6 +156,7 @@ var c12Alphabet = []string{
 	"create matcher set matching the empty string (invalid)", "create bad regex (invalid)",
 	"advance 1", "advance 2", "advance 3 (retention)",
 	"restart from a snapshot",
+	"edit A start=now (exactly the instant of the call)",
 }
 
 func msRound(t time.Time) time.Time { return t.Truncate(time.Millisecond) }
@@ -220,7 +221,7 @@ func (y *c12Sys) apply(x int) (ok bool, viol, desc string) {
 		if code == 200 {
 			viol, desc = "invalid-silence-accepted", fmt.Sprintf("%s answered 200", c12Alphabet[x])
 		}
-	case 6, 7, 8, 9, 10, 11:
+	case 6, 7, 8, 9, 10, 11, 23:
 		id, ok := y.slot["A"]
 		if !ok {
 			return false, "", ""
@@ -262,6 +263,11 @@ func (y *c12Sys) apply(x int) (ok bool, viol, desc string) {
 			class = "B"
 			if end.Before(now) {
 				end = now.Add(2 * c12U)
+			}
+		case 23:
+			start = now
+			if !end.After(start) {
+				end = start.Add(2 * c12U)
 			}
 		}
 		code, nid := y.post(id, class, start, end, comment, nil)
